@@ -20,7 +20,16 @@ import (
 	"github.com/q191201771/naza/pkg/nazabytes"
 )
 
-func ParseSps(payload []byte, ctx *Context) error {
+func ParseSps(payload []byte, ctx *Context) (err error) {
+	// 注意，nazabits.BitReader在数据不完整时（比如哥伦布编码的值刚好在数据的最后一个bit结束）会数组越界panic，
+	// 而sps的内容来自网络，所以这里转换成错误返回
+	defer func() {
+		if r := recover(); r != nil {
+			Log.Errorf("parse sps panic. r=%+v, payload=%s", r, hex.Dump(nazabytes.Prefix(payload, 128)))
+			err = nazaerrors.Wrap(base.ErrAvc)
+		}
+	}()
+
 	br := nazabits.NewBitReader(payload)
 	var sps Sps
 	if err := parseSpsBasic(&br, &sps); err != nil {
